@@ -11,7 +11,7 @@ mod api;
 mod batch;
 mod conf;
 mod misc;
-mod special;
+pub mod special;
 mod threads;
 
 pub struct Ctx<'a> {
@@ -340,6 +340,7 @@ pub fn run(args: &Args, out: &Out) -> i32 {
             return 2;
         }
         special::set_force_off(true);
+        crate::zero::FORCE_OFF_RUN.store(true, std::sync::atomic::Ordering::Relaxed);
     }
     match args.cmd.as_str() {
         "conf" => conf::run(&mut cx, args, &mut rng),
@@ -356,6 +357,7 @@ pub fn run(args: &Args, out: &Out) -> i32 {
         "api" => api::walk(&mut cx, args, &mut rng),
         "clones" => api::clones(&mut cx, args, &mut rng),
         "order" => api::order(&mut cx, args, &mut rng),
+        "longuse" => api::longuse(&mut cx, args, &mut rng),
         "replay" => api::replay(&mut cx, args, &mut rng),
         "threads" => threads::run(&mut cx, args, &mut rng),
         "types" => {
